@@ -57,7 +57,8 @@ def check_layout(tag, prelude_text, real_includes, fields, sizes=(), workdir=Non
         src = os.path.join(workdir, name + ".cpp")
         with open(src, "w") as f:
             f.write(text)
-        rc, out, _ = sh(cmd + [src, "-o", os.path.join(workdir, name)], workdir, 300)
+        # (the real program may include a whole .cpp to reach file-local structs; only main() runs)
+        rc, out, _ = sh(cmd + [src, "-no-pie", "-Wl,--unresolved-symbols=ignore-all", "-o", os.path.join(workdir, name)], workdir, 300)
         if rc != 0:
             raise Undecided("layout check %s: %s program does not compile:\n%s" % (tag, name, out[-2500:]))
         rc, out, _ = sh([os.path.join(workdir, name)], workdir, 60)
